@@ -18,6 +18,11 @@ CHECKS = {
    note="Theorems are at token/AST level (plus tokenizer lemma for canonical spacing); arbitrary spacing, zero counts and U0/H0 spellings are covered by the correspondence and by the oracle on the real code (each spelling of a generated tree must compile to the tree's string; exhaustive strings over .()+ up to length 7/9).",
    technique="Lean 4 theorems (structural induction on structure trees) + differential correspondence",
    design="5.8"),
+ "C12": dict(
+   text="Proof: PepperProps/C12.lean proves, for every lawful code table and every component state satisfying the executable invariant wfB (names distinct, every item reference resolves to an entry of the recorded length and kind, base_seqs of a composite is the concatenation of its items' views, references point backwards, constraint strings are codes of the recorded length), that the model of fix_seq through sequences, starred views, super-sequences (fix_exact), strands (fix_strand) and structures (fix_struct_exact/_count/_length) is exactly the specification specFix: length check, then one intersection per letter at the position read off base_seqs, complemented for starred orientation; that a successful fix changes only constraint strings and only at the listed positions and keeps the invariant (fix_frame); that the new base set at every nucleotide is the old set intersected with all letters landing on it (fix_narrows, via intersect_ok/complOf_mask); that a wrong length is the error length and an empty intersection the error empty and nothing else is (fix_length_error_iff, fix_empty_error_iff, narrow_fails_iff_disjoint); that fixing x* to s is fixing x to the reverse complement (fix_star_is_reverse_complement); that two fixes commute and any permutation of a list of fixes has the same outcome (fix_order_independent, fix_order_independent_all); that fix_signal fixes every bound port to the string or its reverse complement according to the parity flag and recurses with the (reverse-complemented) string into nested systems, keeping the whole tree well-formed (fix_port, parity_composes, fixSignal_spec); and that names that do not exist leave the state unchanged (unknown_name_comp/_sys, unknown_signal). Tied to the code by compiling generated programs with the real compiler with and without generated --fixed files.",
+   note="wfB is not proved to follow from Comp.load; the driver op fix-spec evaluates it on every generated program of every run (a failure is a broken obligation) and also applies the fixed lines through the specification path, compared with code path and real output. Strings are assumed to consist of codes (parse_fixed admits ATCGNS+). Known gap of the existing model Fix.lean/Compile.lean (not exercised): a `+` inside a sequence/strand/structure string raises KeyError in Python, which compiler.py catches as if the name were unknown (warning, possibly after partially fixing a super-sequence); the model reports fix-error. The oracle is an independent Python bookkeeping of nucleotide positions from the source AST (anonymous regions named by walking the unfixed output).",
+   technique="Lean 4 theorems (commuting-narrowing algebra over lawful tables, permutation invariance of folds, induction over reference depth with preserved invariant) + differential runs real compiler / model code path / model specification path + independent semantic oracle",
+   design="5.12"),
  "C20": dict(
    text="Proof (PARTIAL): PepperProps/C20.lean proves over the model PepperModel/Fs.lean (file-name logic of compiler.main, spurious_design.main/design + find_file, finish.main/finish: defaulting, suffix stripping, scratch names) that two runs whose --output/--save/--seqs/--strands names and temp names are pairwise distinct and which pass a decidable cross-collision check have disjoint write sets and do not read or probe each other's writes (footprints_disjoint; scratch files of different temp names can never coincide, by injectivity of string append), and that in an abstract file system ANY list of N processes (interaction trees: the next operation may depend on everything read so far) that stay inside pairwise independent footprints end, under EVERY complete interleaving, in the same files as when run one after another in any order, each process reading the same values (commute, commute_schedules, sequential_order_irrelevant, noninterference). PARTIAL: that the real processes touch nothing outside the modelled footprint is an OS-level fact, observed rather than proved: every tool variant is run under strace -f (open-for-write/creat/unlink/rename/mkdir/... and stat family) and with directory snapshots, and the written / read / probed paths must equal the model's footprint and the set the property allows; then schedules of 2..8 real concurrent processes released from a post-import barrier with random delays are compared byte for byte (time-stamp line masked) with the same commands run sequentially.",
    note="Design runs use --just-files (NUPACK / spuriousSSM absent); the finish input .mfe is built in-process. Sources read by a compile are an opaque parameter of the model (harness checks they are .sys/.comp/--fixed files only). File contents are opaque. Interference through anything other than the directory (e.g. machine load, environment) is out of scope. 30 / 300 schedules over 3+1 / 6+4 systems.",
@@ -58,6 +63,11 @@ CHECKS = {
    note="PARTIAL: hash seed, pyparsing's import-time global whitespace setting and dict mutation are runtime facts outside the model; covered by the differential runs only.",
    technique="Lean 4 equivariance theorem + differential runs across processes/configurations",
    design="5.18"),
+ "C13": dict(
+   text="Proof: PepperProps/C13.lean proves, for every evaluator standing for Python's eval/str, every template (any list of lines, last line with or without newline) and every environment, that the model of var_substitute.process_list returns exactly the hand-expanded file handExpand (comments removed, length lines evaluated in order and removed, every <e> replaced, one newline-terminated line per element of the cartesian product of the brace groups, blank results dropped) or fails with the same evaluation error, whenever the substituted lines have flat braces (subst_is_expansion). The core is parsing-free: duplicate(render S) is the concatenated lexicographic product for every well-formed sequence of texts and groups (duplicate_is_product); product_order states 'leftmost group slowest' as a mixed-radix index formula with the count of instances; instances_newline_terminated covers the missing final newline; duplicate_recursion shows the fuelled model satisfies the Python recursion on every line; arity_binding / arity_lookup show the environment is zip(params, args) and a length mismatch is the only rejection. Tied to the code by running process_list and the model on the same generated templates, and load_component / load_system's environment against bindArgs.",
+   note="Python's eval/str are parameters of the theorems (any function of environment and text). The driver's concrete evaluator covers the integer fragment (+ - * // % unary, parentheses, blanks; floor semantics), everything else is answered 'unsupported' and not compared. Lines with nested or stray braces are outside the theorem (model still mirrors the recursion; compared by correspondence only). Failing-input oracle: an independent hand expansion in the harness (str.find + itertools.product + eval), and end-to-end .pil equality of parameterised .comp/.sys templates with their hand-expanded parameterless files, wrong arity rejected.",
+   technique="Lean 4 theorems (induction over the decomposition into texts and groups, fuel sufficiency) + differential correspondence + end-to-end compile comparison",
+   design="5.13"),
 }
 
 NOT_YET = {}
